@@ -214,7 +214,7 @@ PROPS["C14"] = {
 }
 
 PROPS["C14"]["components"].append(Seq("rc", 800, 30000, proj_model=lambda line: "conservation-broken" if line.startswith("conservation-broken") else "-",
-                                      proj_spec=lambda line: "-", label="rc-conservation"))
+                                      proj_spec=lambda line: "conservation-broken" if line.startswith("conservation-broken") else "-", label="rc-conservation"))
 PROPS["C14"]["rule"] += " rc (sequential): after every operation of the sequential counter histories (incl. the text views String / StringAt and JSON restores) rolling sum = sum of the buckets, within [0, total]."
 PROPS["C14"]["components"].append(Seq("consumers", 300, 12000, proj_model=circuit_proj(["cons"]), proj_spec=circuit_proj(["cons"]), label="consumers-conservation"))
 PROPS["C14"]["rule"] += " consumers (sequential): on every stats read each of the ten rolling counters the collectors own must have rolling sum = sum of its buckets, within [0, total] (counters that share storage fail this)."
